@@ -527,6 +527,7 @@ Alphabet ==
          LET blk == {Shaped(It("map", "inc"), "block"), Shaped(It("then", "inc"), "block"), Shaped(It("and_then", "half"), "block"),
                      Shaped(It("map", "half"), "block")}
          IN  blk \cup {Wrap(op) : op \in {"map", "and_then", "find_map", "filter_map"}} \cup {Unwrap, Def(Unwrap)}
+             \cup {Def(Wrap(op)) : op \in {"map", "and_then"}}
              \cup {It("collect", ""), It("dot", "count"), Def(It("inspect", "nop")), Def(Shaped(It("map", "inc"), "block"))}
     \* C11: block operands on every operator that takes an expression operand, in every step, inside wrappers
     [] Family = "caps" ->
@@ -534,7 +535,9 @@ Alphabet ==
              blk == {Shaped(it, "block") : it \in base} \cup {Shaped(it, "block2") : it \in {p \in base : p.op \in {"fold", "try_fold"}}}
          IN  blk \cup {Def(it) : it \in blk} \cup {It("map", "inc"), It("dot", "into_iter"), It("collect", ""), Def(It("inspect", "nop"))}
              \cup {Wrap(op) : op \in {"map", "and_then", "filter_map"}} \cup {Unwrap}
+    \* (wrappers are also opened by the first action of a later step: `~=> >>>`, closed explicitly or implicitly there)
     [] Family = "wrap"  -> SmallItems \cup WrapItems \cup {Def(it) : it \in {It("map", "inc"), It("inspect", "nop"), It("dot", "is_some")}}
+                           \cup {Def(Wrap(op)) : op \in {"map", "and_then", "filter_map", "inspect"}}
 
 Init == chain \in {[start |-> t, items |-> <<>>] : t \in IF Family = "capwrap" THEN {"OOI", "ItOI", "ItI", "OI"} ELSE StartTypes}
 Next == /\ Len(chain.items) < MaxLen
